@@ -340,6 +340,24 @@ def registry(I):
                                                                                           vert=False),
                                                              {'l': [np.linspace(5., 900., 150)[::-1].copy(), np.linspace(2., 500., 120)[::-1].copy()],
                                                               'pos': [0, 5.0]}), heavy=True)
+    # every per-violin parameter given as a LIST (one entry per violin), with a violin at position 0 of a log axis
+    def violin_lists(fn, horizontal=False):
+        def build():
+            args = {'l': [I.rfi(), I.rfi()[:200], I.rfi()[100:300]], 'pos': [0, 1.0, 10.0],
+                    'vk': [{'facecolor': 'gray'}, {'facecolor': 'red'}, {'facecolor': 'blue'}],
+                    'sk': [{'color': 'k'}, {'color': 'k'}, {'color': 'b'}], 'ut': [0.01, 0.02, 0.01], 'lt': [0.01, 0.01, 0.03]}
+            kw = dict(xscale='log', yscale='log')
+            if horizontal:
+                kw['vert'] = False
+
+            def call(a):
+                return fn(a['l'], channel='FL1', positions=a['pos'], violin_kwargs=a['vk'], draw_summary_stat_kwargs=a['sk'],
+                          upper_trim_fraction=a['ut'], lower_trim_fraction=a['lt'], **kw)
+            return call, args
+        return build
+    add('plot.violin', 'per-violin-lists/log-zero', violin_lists(FlowCal.plot.violin), heavy=True)
+    add('plot.violin', 'per-violin-lists/horizontal-log-zero', violin_lists(FlowCal.plot.violin, True), heavy=True)
+    add('plot.violin_dose_response', 'per-violin-lists/log-zero', violin_lists(FlowCal.plot.violin_dose_response), heavy=True)
     add('plot.violin_dose_response', 'log-positions-with-zero',
         lambda: (lambda a: FlowCal.plot.violin_dose_response(a['l'], channel='FL1', positions=a['pos'], min_data=a['mn'], max_data=a['mx'],
                                                              xscale='log', yscale='log'),
